@@ -30,16 +30,49 @@ class SourceModule(Object):
         # type: () -> bool
         return self.mtime != getmtime(self.filename)
 
-    @cached_property
+    @property
     def scope(self):
         # type: () -> SourceScope
+        try:
+            return self._scope
+        except AttributeError:
+            pass
+
         source = Source(open(self.filename).read(), self.filename)
-        scope = extract_scope(source, self.project)
+        project = self.project
+        outer_cuts = project._cycle_cuts
+        project._cycle_cuts = cuts = set()
+        project._building.append(self)
+        try:
+            scope = extract_scope(source, project)
+        finally:
+            project._building.pop()
+            project._cycle_cuts = outer_cuts
+
+        cuts.discard(self)
+        if cuts:
+            # built while a star-import cycle through a module that is still
+            # under construction was cut: this view is partial, do not keep it
+            outer_cuts.update(cuts)
+        else:
+            self._scope = scope
         return scope
+
+    @cached_property
+    def _own_names(self):
+        # type: () -> dict[str, Name]
+        source = Source(open(self.filename).read(), self.filename)
+        return extract_scope(source, None).exported_names
 
     @property
     def _attrs(self):
         # type: () -> dict[str, Object | Name]
+        if any(m is self for m in self.project._building):
+            # a cycle of star imports came back to this module: like the
+            # partially initialised module Python would see, it offers the
+            # names it defines itself
+            self.project._cycle_cuts.add(self)
+            return self._own_names  # type: ignore[return-value]
         return self.scope.exported_names  # type: ignore[return-value]
 
 
